@@ -92,7 +92,8 @@ var mutantCatalogue = map[string][]mutant{
 		{Name: "tag-bounded read strict", File: "risc/opcodes.go", Old: "return v.sequenceID <= sequenceID", New: "return v.sequenceID < sequenceID"},
 		{Name: "scan skips slot 0", File: "proc/comp/rat.go", Old: "for i := v; i >= 0; i-- {", New: "for i := v; i > 0; i-- {"},
 		{Name: "Find ignores its index", File: "proc/comp/rat.go", Old: "\tfor i := idx; i >= 0; i-- {\n\t\tv := r.values[k][i]", New: "\tfor i := idx; i >= 0; i-- {\n\t\tv := r.values[k][idx]"},
-		{Name: "Commit keeps the table", File: "risc/app.go", Old: "\tctx.Transaction = make(map[RegisterType]transactionUnit)\n}\n\nfunc (ctx *Context) Rollback", New: "}\n\nfunc (ctx *Context) Rollback"},
+		{Name: "Commit keeps the table", File: "risc/app.go", Old: "\tctx.Transaction = make(map[RegisterType]transactionUnit)\n\tctx.transactionOverwritten = make(map[RegisterType][]transactionUnit)\n}\n\nfunc (ctx *Context) Rollback", New: "\tctx.transactionOverwritten = make(map[RegisterType][]transactionUnit)\n}\n\nfunc (ctx *Context) Rollback"},
+		{Name: "rollback forgets the replaced writes", File: "risc/app.go", Old: "\t\tfor _, overwritten := range ctx.transactionOverwritten[register] {\n\t\t\tif overwritten.sequenceID < sequenceID && (tu.sequenceID >= sequenceID || overwritten.sequenceID > tu.sequenceID) {\n\t\t\t\ttu = overwritten\n\t\t\t}\n\t\t}\n", New: ""},
 	},
 	"C07": {
 		{Name: "inner loop swallows the error", File: "proc/mvp6-2/cpu.go", Old: "\t\t\t\t\t\t\treturn 0, resp.err\n", New: "\t\t\t\t\t\t\treturn 0, nil\n"},
